@@ -35,6 +35,11 @@ from pytezos.michelson.types.core import NatType
 from pytezos.michelson.types.core import StringType
 
 
+# RFC 3339 notation covers years 0001..9999 only, outside this range Tezos uses the integer notation
+MIN_RFC3339_TIMESTAMP = -62135596800  # 0001-01-01T00:00:00Z
+MAX_RFC3339_TIMESTAMP = 253402300799  # 9999-12-31T23:59:59Z
+
+
 class TimestampType(IntType, prim='timestamp'):  # type: ignore
     @classmethod
     def from_value(cls, value: int) -> 'TimestampType':
@@ -59,7 +64,9 @@ class TimestampType(IntType, prim='timestamp'):  # type: ignore
         if mode in ['optimized', 'legacy_optimized']:
             return {'int': str(self.value)}
         elif mode == 'readable':
-            return {'string': format_timestamp(self.value)}
+            if MIN_RFC3339_TIMESTAMP <= self.value <= MAX_RFC3339_TIMESTAMP:
+                return {'string': format_timestamp(self.value)}
+            return {'int': str(self.value)}
         else:
             raise AssertionError(f'unsupported mode {mode}')
 
